@@ -114,11 +114,29 @@ func (c *client) PushBlob(ctx context.Context, repo string, desc ociregistry.Des
 	ctx = ociauth.ContextWithRequestInfo(ctx, ociauth.RequestInfo{
 		RequiredScope: scopeForRequest(rreq),
 	})
+	// net/http holds the body it sends to a positive ContentLength, but it
+	// takes a zero or negative ContentLength together with a body to mean
+	// "length unknown" and sends whatever the reader holds, and it sends
+	// nothing for the readers it knows to be empty whatever ContentLength says.
+	// Hold the content to the size in the descriptor in those cases here.
+	if desc.Size < 0 {
+		return ociregistry.Descriptor{}, fmt.Errorf("negative size in descriptor: %w", ociregistry.ErrSizeInvalid)
+	}
+	if desc.Size == 0 && r != nil {
+		var buf [1]byte
+		if n, _ := io.ReadFull(r, buf[:]); n > 0 {
+			return ociregistry.Descriptor{}, fmt.Errorf("content is larger than the size 0 in the descriptor: %w", ociregistry.ErrSizeInvalid)
+		}
+		r = nil
+	}
 	// Note: we can't use ocirequest.Request here because that's
 	// specific to the ociserver implementation in this case.
 	req, err = http.NewRequestWithContext(ctx, "PUT", "", r)
 	if err != nil {
 		return ociregistry.Descriptor{}, err
+	}
+	if desc.Size > 0 && (req.Body == nil || req.Body == http.NoBody) {
+		return ociregistry.Descriptor{}, fmt.Errorf("content is empty but the descriptor has size %d: %w", desc.Size, ociregistry.ErrSizeInvalid)
 	}
 	req.URL = urlWithDigest(location, string(desc.Digest))
 	req.ContentLength = desc.Size
